@@ -5,4 +5,4 @@ From VOPy Require Import QVec Cone.
 From VOPyGen Require Import Gen_order.
 Extraction Language OCaml.
 Extraction "modelgen.ml"
-  Gen_order.gen_is_inside_row Gen_order.gen_is_inside Gen_order.gen_dominates.
+  Cone.eye Gen_order.gen_is_inside_row Gen_order.gen_is_inside Gen_order.gen_dominates.
